@@ -122,6 +122,11 @@ type caseT struct {
 	// long-lived channel / server / mux, registrations and earlier calls in order.
 	// Set is then the set registered at the moment of this call.
 	History []stepT `json:"history,omitempty"`
+	// the channel the call is made on (wrap.go): "" the bare channel; else the layers
+	// of grpchan.InterceptClientConn around it, outermost first ("pass" / "redirect").
+	// With a redirecting layer the stub calls Name and that layer hands Onward onward.
+	Wrap   string `json:"wrap,omitempty"`
+	Onward string `json:"onward,omitempty"`
 }
 
 // ---- the real thing under test ---------------------------------------------
@@ -145,6 +150,9 @@ type config struct {
 	// runs of the ErrorRenderer option
 	register func(svc string) error
 	rendered int64
+	// wrap.go: the wrapped views of cc; runs of the client interceptors
+	wrapped map[string]grpc.ClientConnInterface
+	cint    int64
 }
 
 type recoverH struct {
@@ -343,7 +351,9 @@ type obsT struct {
 	Sent        int64            `json:"requests_sent"`
 	// runs of the ErrorRenderer option during the call
 	Rendered int64 `json:"renderer_runs,omitempty"`
-	err      error
+	// runs of the client interceptors of a wrapped channel during the call
+	ClientInt int64 `json:"client_interceptor_runs,omitempty"`
+	err       error
 	isStat   bool
 	code     codes.Code
 	srvSide  bool
@@ -370,7 +380,9 @@ func run(cfg *config, c caseT) (o obsT) {
 	cfg.mu.Unlock()
 	sentBefore := atomic.LoadInt64(&cfg.sent)
 	renderedBefore := atomic.LoadInt64(&cfg.rendered)
+	cintBefore := atomic.LoadInt64(&cfg.cint)
 	defer func() {
+		o.ClientInt = atomic.LoadInt64(&cfg.cint) - cintBefore
 		o.Sent = atomic.LoadInt64(&cfg.sent) - sentBefore
 		o.Rendered = atomic.LoadInt64(&cfg.rendered) - renderedBefore
 	}()
@@ -379,6 +391,17 @@ func run(cfg *config, c caseT) (o obsT) {
 	cc := cfg.cc
 	if c.ClientBase != "" {
 		cc = cfg.client(c.ClientBase)
+	}
+	if c.Wrap != "" {
+		key := c.Wrap + "|" + c.ClientBase
+		if cfg.wrapped[key] == nil {
+			if cfg.wrapped == nil {
+				cfg.wrapped = map[string]grpc.ClientConnInterface{}
+			}
+			cfg.wrapped[key] = cfg.wrappedCC(cc, c.Wrap)
+		}
+		cc = cfg.wrapped[key]
+		ctx = context.WithValue(ctx, onwardKey{}, c.Onward)
 	}
 	func() {
 		defer func() {
@@ -513,6 +536,10 @@ func shape(name string) string {
 //	             method exists with the other arity); failing cleanly is as good
 //	code  != nil: a clean failure has to carry that code
 func classify(c caseT) (class, must, may string, code *codes.Code) {
+	if c.Wrap != "" {
+		// the name finally handed to the bare channel decides (wrap.go)
+		c.Name, c.Wrap, c.Onward = c.effName(), "", ""
+	}
 	opKind := "unary"
 	if c.Op == "NewStream" {
 		opKind = "stream"
@@ -570,6 +597,7 @@ func checkAs(c caseT, o obsT, class, must, may string, code *codes.Code) (clause
 }
 
 func checkBase(c caseT, o obsT, class, must, may string, code *codes.Code) (clause, detail string) {
+	c.Name = c.effName()
 	if o.Panic != "" {
 		side := "client"
 		if o.srvSide {
@@ -659,6 +687,27 @@ func fingerprintOfCall(c caseT, clause string, o obsT) string {
 	}
 	if c.ClientBase != "" {
 		where += "|client-base=" + c.ClientBase
+	}
+	if c.Wrap != "" {
+		where += "|wrap=" + c.Wrap
+	}
+	if redirects(c.Wrap) {
+		// the classes of the called and of the onward name identify the input; their
+		// spelling, the registered set, the HTTP carrier and the base path collapse
+		// (the replay object has the exact case)
+		where = "inproc|wrap=" + c.Wrap
+		if c.Transport != "inproc" {
+			where = "http|wrap=" + c.Wrap
+		}
+		if clause == "panic" {
+			msg := o.Panic
+			if len(msg) > 80 {
+				msg = msg[:80]
+			}
+			return fmt.Sprintf("C12|%s|%s|called-shape=%q|onward-shape=%q|panic|%s", where, c.Op, shape(c.Name), shape(c.Onward), msg)
+		}
+		oc, _, _, _ := classify(c)
+		return fmt.Sprintf("C12|%s|%s|called=%s|onward=%s|%s", where, c.Op, calledClass(c), oc, clause)
 	}
 	if clause == "panic" {
 		// the registered set and the spelling of the segments do not matter for a
@@ -949,6 +998,10 @@ func main() {
 		fmt.Fprintln(os.Stderr, "INCONCLUSIVE: self-test of the descriptor / decoration dimensions failed:", msg)
 		os.Exit(2)
 	}
+	if msg := selfTestWrap(); msg != "" {
+		fmt.Fprintln(os.Stderr, "INCONCLUSIVE: self-test of the channel dimension failed:", msg)
+		os.Exit(2)
+	}
 	if msg := selfTestSeqs(); msg != "" {
 		fmt.Fprintln(os.Stderr, "INCONCLUSIVE: self-test of the server-option / registration-sequence dimensions failed:", msg)
 		os.Exit(2)
@@ -979,6 +1032,10 @@ func main() {
 		lo, hi int64
 		// the ErrorRenderer option of the instance (seqs.go)
 		renderer string
+		// channel-dimension jobs (wrap.go): the layers around the channel; with a
+		// redirecting layer, called x names (names are the onward names)
+		wrap   string
+		called []string
 		// registration-sequence jobs (seqs.go): every case builds its own instance
 		seq    *seqJobT
 		dur    time.Duration // for tuning the check itself (VERIF_C12_TIMING)
@@ -1165,6 +1222,44 @@ func main() {
 			}
 		}
 	}
+	// the channel dimension (wrap.go): every transport, base path and set x every
+	// wrapping; pass-through layers with the whole name list in-process and the core
+	// names over HTTP; redirecting layers with called names x onward names, the
+	// onward names being the core names in-process (thorough: the quick tier's whole
+	// list) and, for the single redirecting layer and sets AB and D, on the root base
+	// path (thorough: every wrapping and set where the long token strings run), and
+	// the called names themselves elsewhere
+	called := calledNames()
+	wrapOnward := map[string]int{}
+	for _, tr := range trs {
+		for _, set := range setOrder {
+			for _, w := range wraps {
+				var j *job
+				switch {
+				case !redirects(w) && tr.kind == "inproc":
+					j = newJob(tr, set, "", nameList)
+				case !redirects(w):
+					j = newJob(tr, set, "", core)
+				case tr.kind == "inproc":
+					j = newJob(tr, set, "", core)
+					if rep.Tier == "thorough" {
+						j.names = midList
+					}
+				case rep.Tier == "thorough" && longOn[tr], tr.base == "/" && w == "redirect" && (set == "AB" || set == "D"):
+					j = newJob(tr, set, "", core)
+				default:
+					j = newJob(tr, set, "", called)
+				}
+				j.wrap = w
+				if redirects(w) {
+					j.called = called
+					wrapOnward[fmt.Sprintf("%s wrap=%s: %d called x %d onward names", tr.kind, w, len(called), len(j.names))]++
+				} else {
+					wrapOnward[fmt.Sprintf("%s wrap=%s: %d names", tr.kind, w, len(j.names))]++
+				}
+			}
+		}
+	}
 	var wg sync.WaitGroup
 	workers := runtime.NumCPU()
 	if workers < 4 {
@@ -1300,6 +1395,27 @@ func main() {
 				}
 				return
 			}
+			if j.wrap != "" {
+				for _, op := range ops {
+					if !redirects(j.wrap) {
+						for _, name := range j.names {
+							c := caseT{Transport: j.tr.kind, Base: j.tr.base, Set: j.set, Op: op, Name: name, Wrap: j.wrap}
+							one(c, wrapPrefix(c), 2, false)
+						}
+						continue
+					}
+					for _, cn := range j.called {
+						for _, on := range j.names {
+							c := caseT{Transport: j.tr.kind, Base: j.tr.base, Set: j.set, Op: op, Name: cn, Onward: on, Wrap: j.wrap}
+							o := one(c, wrapPrefix(c), 0, false)
+							if want := int64(strings.Count(j.wrap, ",") + 1); o.ClientInt != want && o.Panic == "" && j.err == nil {
+								j.err = fmt.Errorf("the client interceptors ran %d time(s) for %+v, the channel has %d layer(s): the harness does not drive the dimension", o.ClientInt, c, want)
+							}
+						}
+					}
+				}
+				return
+			}
 			if j.descs {
 				for _, name := range j.names {
 					for _, id := range otherDescs {
@@ -1355,6 +1471,7 @@ func main() {
 	evals, nontrivial, near, nearTok, tokEvals, truncated, tokJobs := 0, 0, 0, 0, 0, 0, 0
 	descEvals, descHandlerEvals, decoEvals := 0, 0, 0
 	rendererEvals, optionEvals, seqEvals, seqLate := 0, 0, 0, 0
+	wrapEvals, redirectEvals := 0, 0
 	configs := map[string]bool{}
 	classes := map[string]int{}
 	var samples []interface{}
@@ -1366,7 +1483,7 @@ func main() {
 		}
 		evals += j.n
 		nontrivial += j.nt
-		configs[fmt.Sprint(j.tr, "|", j.set, "|", j.deco, "|", j.renderer)] = true
+		configs[fmt.Sprint(j.tr, "|", j.set, "|", j.deco, "|", j.renderer, "|", j.wrap)] = true
 		if j.renderer != "" {
 			rendererEvals += j.n
 		}
@@ -1391,6 +1508,12 @@ func main() {
 		if j.deco != "" {
 			decoEvals += j.n
 		}
+		if j.wrap != "" {
+			wrapEvals += j.n
+			if redirects(j.wrap) {
+				redirectEvals += j.n
+			}
+		}
 		near += j.near
 		truncated += j.more
 		if j.ts != nil {
@@ -1409,7 +1532,7 @@ func main() {
 		for _, r := range j.res {
 			rep.Violation(fingerprint(r.c, r.clause, r.o), fmt.Sprintf("%s %s %q on %s base=%q set=%s%s: %s: %s", r.c.Op, "name", r.c.Name, r.c.Transport, r.c.Base+map[bool]string{true: "\" client-base=\"" + r.c.ClientBase}[r.c.ClientBase != ""], r.c.Set,
 				map[string]string{"interceptor": " registered through WithInterceptor", "option": " with the server interceptor options"}[r.c.Deco]+map[bool]string{true: " descriptor=" + r.c.Desc + " (" + descRelation(r.c.Set, r.c.Desc, r.c.Name) + ")"}[r.c.Desc != ""]+
-					map[bool]string{true: " ErrorRenderer option=" + r.c.Renderer}[r.c.Renderer != ""]+map[bool]string{true: " after [" + historySig(r.c.History) + "] on the same instance"}[len(r.c.History) > 0], r.clause, r.detail), r.c)
+					map[bool]string{true: " ErrorRenderer option=" + r.c.Renderer}[r.c.Renderer != ""]+map[bool]string{true: " after [" + historySig(r.c.History) + "] on the same instance"}[len(r.c.History) > 0]+wrapNote(r.c), r.clause, r.detail), r.c)
 		}
 	}
 	if truncated > 0 {
@@ -1425,6 +1548,12 @@ func main() {
 		// and the first near-miss of the escape dimension per (op, transport, grammar)
 		if strings.HasPrefix(k, "late-registration/") {
 			samples = append(samples, allSmp[k])
+		} else if strings.Contains(k, "wrap=") {
+			// the channel dimension: a single redirecting layer, a registered name sent
+			// to an unknown one and the reverse
+			if strings.HasSuffix(k, "/wrap=redirect:called=registered:unknown/clean-failure") || strings.HasSuffix(k, "/wrap=redirect:called=unknown:registered/handler-ran") {
+				samples = append(samples, allSmp[k])
+			}
 		} else if strings.Contains(k, "renderer:") || strings.Contains(k, "seq:") || strings.Contains(k, "option-intercepted:") {
 			// the server-option and registration-sequence dimensions: an unknown name
 			// with a renderer, per op and carrier (a sequence case: in-process)
@@ -1502,6 +1631,29 @@ func main() {
 			os.Exit(2)
 		}
 	}
+	// the channel dimension is populated: every wrapping with names that have to run
+	// their handler and with unknown ones; redirections from a registered name to an
+	// unknown / malformed / another registered one and from unknown / malformed names
+	// to a registered one
+	for _, w := range wraps {
+		ks := []string{"wrap=" + w + ":registered", "wrap=" + w + ":unknown", "wrap=" + w + ":malformed"}
+		if redirects(w) {
+			ks = nil
+			for _, k := range []string{"called=registered:unknown", "called=registered:malformed", "called=registered:registered", "called=unknown:registered", "called=malformed:registered", "called=other-arity:registered", "called=unknown:unknown"} {
+				ks = append(ks, "wrap="+w+":"+k)
+			}
+		}
+		for _, k := range ks {
+			if populated[k] == 0 {
+				fmt.Fprintf(os.Stderr, "INCONCLUSIVE: the channel dimension is not populated: no case of %s\n", k)
+				os.Exit(2)
+			}
+			if rep.Violations == 0 && rep.KnownHits == 0 && strings.HasSuffix(k, ":registered") && classes[k+"/handler-ran"] == 0 {
+				fmt.Fprintf(os.Stderr, "INCONCLUSIVE: no case of %s/handler-ran; the harness is broken\n", k)
+				os.Exit(2)
+			}
+		}
+	}
 	if seqLate == 0 {
 		fmt.Fprintln(os.Stderr, "INCONCLUSIVE: no sequence case calls a service that was probed before it was registered")
 		os.Exit(2)
@@ -1538,6 +1690,7 @@ func main() {
 			"(4) descriptor dimension: what the client passes to NewStream as *grpc.StreamDesc; (1) and (2) use the bare client-made one (StreamName x, no Handler). The other descriptors, derived from the registry universe (D for the segment grammar " + fmt.Sprint(descIDs("D")[1:]) + ", T for the token grammar " + fmt.Sprint(descIDs("T")[1:]) + "): client:<n> client-made without Handler with StreamName n in {empty, each stream's simple name, a unary method's simple name}; raw:<svc>/<stream> the very element of the ServiceDesc.Streams slice handed to RegisterService, for every stream of the universe (for a set that registers the stream it is the registered descriptor: the named method's own, or another method's / another service's; for a set that does not, and for the raw descriptor of a service registered through WithInterceptor, its Handler is registered nowhere); twin: same service and stream name as a registered one, another handler, registered nowhere; foreign: two descriptors of a service registered nowhere, one with a registered stream's simple name, one with an unknown one. Every handler has its own counter. Crossed with: in-process: every set x {plain, WithInterceptor} x the whole name list of (1), and the whole token grammar of (2) (plain); HTTP (where the descriptor never crosses the wire): every carrier and base path x set D x {plain, WithInterceptor} x the core names (thorough tier: x " + midDesc + " on the carriers with base paths /, /foo/, /c%d/x). Oracle unchanged: the name alone decides, whatever the descriptor. by_class_and_outcome prefixes: desc=<relation of the descriptor to the name: client-named | own | other-registered | unregistered>:, intercepted: for a decorated registry. " +
 			"(5) server-option dimension (seqs.go). (a) the ErrorRenderer handler option, as httpgrpc.NewServer's option and as HandleServices' option: (1)-(4) use none; the other values " + fmt.Sprint(renderers) + ": default = httpgrpc.DefaultErrorRenderer passed explicitly, noop = writes nothing, ok-body = answers every failure 200 with a JSON body, own-4xx = answers every failure 422 with a text body (each counts its runs). Crossed with: both HTTP carriers x every base path x sets " + fmt.Sprint(rendererSets) + " x {Invoke, NewStream} x the core names (set D: " + midDesc + " on the root base path" + map[bool]string{true: " and on /foo/, /c%d/x; plus every string of 0..4 tokens of (2)'s upper-case-hex alphabet on the root base path"}[rep.Tier == "thorough"] + "). Oracle unchanged: whatever the renderer, an unknown or malformed name gives a status error (NotFound for unknown) and runs no handler, a registered name runs its handler and succeeds. (b) the interceptors as a server option (decoration \"option\": inprocgrpc.Channel.WithServer*Interceptor, httpgrpc.WithServer*Interceptor, HandleServices' interceptor arguments) instead of grpchan.WithInterceptor: sets AB and D x {Invoke, NewStream} x every transport and base path, the whole name list of (1) in-process, the core names over HTTP; oracle of (3). by_class_and_outcome prefixes renderer: and option-intercepted:. " +
 			"(6) registration-sequence dimension (seqs.go): (1)-(5) register every service before the first call. Here a case is (history, call) on ONE long-lived instance built with nothing registered: the history is any interleaving of registrations (the services of D, each at most once, in any order; in-process Channel.RegisterService, Server.RegisterService, or HandleServices on the same ServeMux once per registration with a HandlerMap holding that service) and earlier calls; every sequence of at most 2 registrations and at most 3 calls" + map[bool]string{true: " (in-process, plain: 4 calls over alphabet 1)"}[rep.Tier == "thorough"] + " that ends in a call is a case (so every interleaving, probes of not-yet-registered names included; trailing registrations change nothing observable). Each case runs on a fresh instance; the last call is judged, against the set registered AT THAT MOMENT (none, {pkg.A}, {pkg.B}, D), by the oracle of (1). Call alphabets derived from D, each name x {Invoke, NewStream}: alphabet 0 = {/pkg.A/M, /pkg.A/S, /pkg.B/M, /pkg.F/M}; alphabet 1 = per service its first unary, first stream and an unknown method, plus /pkg.F/M and the malformed /pkg.A; alphabet 2 = the six full names of D, per service an unknown method, /pkg.F/M, /pkg.A, /pkg.A/M/x. Which alphabet where: sequence_grammars (in-process also with both decorations; the root base path with the biggest alphabet and, with a smaller one, crossed with every renderer of (5)" + map[bool]string{true: "; /foo/ and /c%d/x with alphabet 1 and, with alphabet 0, crossed with every renderer"}[rep.Tier == "thorough"] + "; every other base path with alphabet 0). A violating case is reduced to a 1-minimal history before it is reported (steps dropped while the same clause is still violated; the reduced case is a member of the grammar). by_class_and_outcome prefix seq:; sequence_cases_probed_before_registered counts the cases whose call names a registered service that an earlier call of the history named before it was registered. " +
+			"(7) channel dimension (wrap.go): the channel the call is made on. (1)-(6) call the bare inprocgrpc.Channel / httpgrpc.Channel. Here the same channel is wrapped by grpchan.InterceptClientConn with a unary and a stream client interceptor, in the layerings " + fmt.Sprint(wraps) + " (outermost first): a pass layer hands the invoker / streamer the method name it was given, a redirect layer hands it ANOTHER name. A redirecting case is (called name, onward name): called names " + fmt.Sprintf("%q", called) + " (D's full names, per service an unknown method, an unknown service, malformed ones), onward names from the grammar of (1). Crossed with every transport, base path, set and {Invoke, NewStream}, bare descriptor, plain registry: pass-only wrapping x the whole name list of (1) in-process and the core names over HTTP; redirecting wrappings x called names x onward names, the onward names being the core names in-process" + map[bool]string{true: " (thorough: the quick tier's whole list)"}[rep.Tier == "thorough"] + map[bool]string{true: " and where the long token strings run", false: " and, for the single redirecting layer and sets AB and D, on the root base path"}[rep.Tier == "thorough"] + ", the called names themselves elsewhere (wrapped_channel_grammars: grammar -> number of (transport, base, set) instances). Oracle: that of (1) applied to the name finally handed to the bare channel (the onward name when a layer redirects): exactly the handler it denotes runs once and the call succeeds, or nothing runs and the call fails with a status error (NotFound / Unimplemented for unknown); what the stub called decides nothing. The harness also demands that every layer's interceptor ran once per call (else INCONCLUSIVE). by_class_and_outcome prefixes wrap=<layers>: and, with a redirecting layer, called=<class of the called name>: before the class of the onward name. " +
 			"Oracle in all: a handler runs only for the exact string /<registered service>/<registered method> (names that merely percent-decode to one, or are cut to one at ? or #, are unknown: NotFound / Unimplemented, zero handler runs). " +
 			"A case is non-trivial when the lookup ran against a non-empty registry (set != none), i.e. the name was actually matched against registered services/methods; each case is distinct by (transport, base, set, decoration, op, descriptor, name). by_class_and_outcome gives the measured split (token grammar classes are prefixed tokens:); near_miss_cases counts the cases whose name is not registered but becomes a registered full name of the right arity when its escapes are decoded once or it is cut at the first ? or #.",
 		"by_class_and_outcome":   classes,
@@ -1560,6 +1713,10 @@ func main() {
 		"sequence_cases":                                          seqEvals,
 		"sequence_cases_probed_before_registered":                 seqLate,
 		"sequence_grammars":                                       seqGrammars,
+		"wrapped_channel_evaluations":                             wrapEvals,
+		"wrapped_channel_redirecting_evaluations":                 redirectEvals,
+		"wrapped_channel_grammars":                                wrapOnward,
+		"called_names":                                            called,
 		"core_names":                                              len(core),
 		"mid_names":                                               len(midList),
 		"jobs":                                                    len(jobs),
@@ -1577,6 +1734,7 @@ func main() {
 		"every descriptor of the dimension has ClientStreams and ServerStreams set, like the bare one (the flags legitimately steer the client side of the stream)",
 		"the ErrorRenderer option is crossed with every base path, carrier and op but with the core names only (the whole list for set D on the root base path), with sets none/AB/D in the quick tier, and with the token grammar in the thorough tier only; it is not crossed with the descriptor and decoration dimensions; the handlers of the check never fail, so a renderer only ever runs if the library routes a name failure through it",
 		"registration sequences: at most 2 registrations (the two services of D, each once; registering a service twice is refused by the library) and 3 calls; the bigger call alphabets run in-process and on the root base path (thorough: alphabet 1 also on /foo/ and /c%d/x), the 8-symbol alphabet on every other base path; bare client-made StreamDesc only; unregistering does not exist in the library; concurrent registration and calls are not explored (sequential histories)",
+		"the channel dimension: at most two layers of InterceptClientConn, at most one of them redirecting, interceptors given for both arities (a nil interceptor makes InterceptClientConn hand the call straight through, which is the bare channel); the bare client-made StreamDesc and directly registered services only; not crossed with the token grammar, the ErrorRenderer option, cross-mount clients or registration sequences; the interceptors hand on the context, request, reply, options and *grpc.ClientConn unchanged and change the method name only",
 		"the token grammar runs against its own minimal registry {s: m, t}, not crossed with the registry sets of the segment grammar; the single-edit sweep covers the escape dimension for the pkg.A/pkg.B registries on every configuration, but only one edit at a time",
 	}))
 }
